@@ -23,18 +23,18 @@ import (
 	"fmt"
 	"io"
 	"io/fs"
+	"math/rand"
 	"net"
 	"net/http"
 	"os"
 	"path/filepath"
-	"math/rand"
 	"runtime"
-	"syscall"
 	"sort"
 	"strconv"
 	"strings"
 	"sync"
 	"sync/atomic"
+	"syscall"
 	"time"
 
 	"github.com/Basekick-Labs/msgpack/v6"
@@ -227,7 +227,7 @@ func (w *walRec) AppendRawWithMeta(database string, payload []byte) error {
 	return nil
 }
 func (w *walRec) Stats() map[string]interface{} { return map[string]interface{}{} }
-func (w *walRec) Close() error                   { return nil }
+func (w *walRec) Close() error                  { return nil }
 func (w *walRec) take() []string {
 	w.mu.Lock()
 	defer w.mu.Unlock()
@@ -284,6 +284,9 @@ type chassis struct {
 	sinceFlush  int
 	storeRows   int64
 	storeBad    []string
+	// client-side transport errors (retried, never judged)
+	transportErrs    int64
+	lastTransportErr string
 }
 
 const markerMeas = "c30marker"
@@ -297,6 +300,7 @@ func ingestCfg() *config.IngestConfig {
 func nodeID(i int) string   { return fmt.Sprintf("node-%d", i) }
 func nodeAddr(i int) string { return fmt.Sprintf("n%d.c30.test:8000", i) }
 func downAddr(i int) string { return fmt.Sprintf("down%d.c30.test:8000", i) }
+func nodeDB(i int) string   { return fmt.Sprintf("c30db%d", i) }
 
 func newChassis(id int, root string) (*chassis, error) {
 	ch := &chassis{id: id, root: root, expectStore: map[string]int{}}
@@ -370,6 +374,10 @@ func newChassis(id int, root string) (*chassis, error) {
 		if err != nil || st != 204 {
 			return nil, fmt.Errorf("marker write on node %d: status %d err %v body %s", i, st, err, body)
 		}
+		st, body, err = ch.do(i, "POST", "/api/v1/write/line-protocol", "text/plain", []byte(lines[0]), map[string][]string{"X-Arc-Database": {nodeDB(i)}})
+		if err != nil || st != 204 {
+			return nil, fmt.Errorf("marker database write on node %d: status %d err %v body %s", i, st, err, body)
+		}
 		if err := n.buf.FlushAll(context.Background()); err != nil {
 			return nil, fmt.Errorf("marker flush: %w", err)
 		}
@@ -382,7 +390,9 @@ func newChassis(id int, root string) (*chassis, error) {
 		for {
 			nrows, st, body := ch.markerRows(i)
 			if st == 200 && nrows == i+1 {
-				break
+				if who, _ := ch.showNode(i); who == i {
+					break
+				}
 			}
 			if time.Now().After(deadline) {
 				return nil, fmt.Errorf("marker on node %d not queryable: status %d rows %d body %.300s", i, st, nrows, body)
@@ -406,6 +416,44 @@ func (ch *chassis) markerRows(i int) (int, int, string) {
 		return -1, st, string(body)
 	}
 	return nrows, st, string(body)
+}
+
+// showNode runs SHOW DATABASES directly against node i and returns the node its answer identifies.
+func (ch *chassis) showNode(i int) (int, int) {
+	b, _ := json.Marshal(map[string]string{"sql": "SHOW DATABASES"})
+	st, body, err := ch.do(i, "POST", "/api/v1/query", "application/json", b, nil)
+	if err != nil {
+		return -1, -1
+	}
+	who, _ := parseShow(body)
+	return who, st
+}
+
+// parseShow: the node whose private database directory the answer lists (-1: none or ambiguous).
+func parseShow(b []byte) (int, bool) {
+	var r struct {
+		Success bool            `json:"success"`
+		Data    [][]interface{} `json:"data"`
+	}
+	if json.Unmarshal(b, &r) != nil || !r.Success {
+		return -1, false
+	}
+	who := -1
+	for _, row := range r.Data {
+		if len(row) == 0 {
+			continue
+		}
+		s, _ := row[0].(string)
+		for i := 0; i < maxNodes; i++ {
+			if s == nodeDB(i) {
+				if who >= 0 && who != i {
+					return -1, true
+				}
+				who = i
+			}
+		}
+	}
+	return who, true
 }
 
 func (ch *chassis) wire(n *node, r *cluster.Router) {
@@ -547,6 +595,9 @@ func (ch *chassis) run(c caseCfg) obs {
 		path = map[int]string{kQuery: "/api/v1/query", kQueryMsgpack: "/api/v1/query/msgpack", kQueryArrow: "/api/v1/query/arrow"}[c.Kind]
 		ct = "application/json"
 		body, _ = json.Marshal(map[string]string{"sql": fmt.Sprintf("SELECT %d AS cid, count(*) AS nrows FROM %s", cidNum, markerMeas)})
+	case kQueryShow:
+		path, ct = "/api/v1/query", "application/json"
+		body, _ = json.Marshal(map[string]string{"sql": fmt.Sprintf("SHOW DATABASES -- %d", cidNum)})
 	case kQueryEstimate:
 		path, ct = "/api/v1/query/estimate", "application/json"
 		body, _ = json.Marshal(map[string]string{"sql": fmt.Sprintf("SELECT *, %d AS cid FROM %s", cidNum, markerMeas)})
@@ -637,6 +688,10 @@ func (ch *chassis) run(c caseCfg) obs {
 			gotCid, nrows, ok = parseMsgpackQuery(rb)
 		case kQueryArrow:
 			gotCid, nrows, ok = parseArrowQuery(rb)
+		case kQueryShow:
+			if who, good := parseShow(rb); good && who >= 0 {
+				gotCid, nrows, ok = cidNum, who+1, true
+			}
 		case kQueryEstimate:
 			var r struct {
 				Success bool  `json:"success"`
@@ -826,3 +881,789 @@ func (ch *chassis) reconcile() {
 	ch.sinceFlush = 0
 }
 
+// ---------------------------------------------------------------------------------------------
+// oracle — exactly the property. The capability table is the SPECIFICATION (role.go's documented
+// contract), written out here so that a change of GetCapabilities is judged, not followed.
+
+func specCan(role byte, write bool) bool {
+	switch role {
+	case 'S', 'W':
+		return true
+	case 'R':
+		return !write
+	}
+	return false // compactor: neither ingests nor serves queries
+}
+
+// capable: can node i of the configuration serve this request kind locally?
+// A node without a cluster router is not clustered at all: it is a stand-alone server and serves everything.
+func capable(c caseCfg, i int) bool {
+	n := c.Nodes[i]
+	if !n.Router {
+		return true
+	}
+	return specCan(n.Real, kinds[c.Kind].IsWrite)
+}
+
+type finding struct {
+	Kind string
+	Desc string
+}
+
+func ok2xx(st int) bool { return st >= 200 && st < 300 }
+
+func judge(c caseCfg, o obs) []finding {
+	N := len(c.Nodes)
+	isW := kinds[c.Kind].IsWrite
+	var out []finding
+	sum, procBy := 0, -1
+	for i := 0; i < N; i++ {
+		sum += o.Proc[i]
+		if o.Proc[i] > 0 {
+			procBy = i
+		}
+	}
+	chain := func() string {
+		var parts []string
+		for i := 0; i < N; i++ {
+			for _, in := range o.Inbound[i] {
+				f := "-"
+				if in.Has {
+					f = in.FwdBy
+				}
+				parts = append(parts, fmt.Sprintf("node-%d<-[fwd-by:%s]", i, f))
+			}
+		}
+		return fmt.Sprintf("status=%d forwards=%d processed=%v inbound={%s}", o.Status, o.Forwards, o.Proc, strings.Join(parts, " "))
+	}
+	// S1: a node whose role cannot serve the request never processes it locally
+	for i := 0; i < N; i++ {
+		if o.Proc[i] > 0 && !capable(c, i) {
+			who := "a peer"
+			if i == 0 {
+				who = "the receiving node"
+			}
+			out = append(out, finding{"incapable-node-processed", fmt.Sprintf("%s (%s) processed the request locally although its role cannot serve it; %s", who, c.Nodes[i], chain())})
+			break
+		}
+	}
+	// S2: at most one forward, never forwarded again
+	if o.Forwards > 1 {
+		out = append(out, finding{"forwarded-more-than-once", "the request crossed more than one inter-node hop; " + chain()})
+	}
+	// S3: handled once
+	if sum > 1 {
+		out = append(out, finding{"processed-more-than-once", "the request was processed more than once; " + chain()})
+	}
+	// S4: the receiving node serves it when its role can
+	if capable(c, 0) && !(o.Proc[0] == 1 && o.Forwards == 0 && ok2xx(o.Status)) {
+		out = append(out, finding{"capable-receiver-did-not-serve", "the receiving node can serve this request but did not simply serve it; " + chain()})
+	}
+	// S5: what the client is told matches what happened
+	if ok2xx(o.Status) && sum == 0 {
+		out = append(out, finding{"success-without-processing", "the client got a success answer but no node processed the request; " + chain()})
+	}
+	if !ok2xx(o.Status) && sum > 0 {
+		out = append(out, finding{"error-but-processed", "the client got an error but a node processed the request; " + chain()})
+	}
+	// L1: otherwise forwarded once to a capable peer. Demanded only when the request is not marked as forwarded
+	// and every peer the receiving node could pick (recorded healthy with a recorded role able to serve it) really is
+	// reachable and capable, so that the answer does not depend on which of them the router picks.
+	if !capable(c, 0) && c.Hdr == hAbsent {
+		cand, good := 0, 0
+		for j := 1; j < N; j++ {
+			p := c.Nodes[j]
+			if (p.Health == 'h' || p.Health == 'x') && specCan(p.Rec, isW) {
+				cand++
+				if p.Health == 'h' && capable(c, j) {
+					good++
+				}
+			}
+		}
+		if cand > 0 && good == cand {
+			if !(o.Forwards == 1 && sum == 1 && procBy > 0 && capable(c, procBy) && ok2xx(o.Status)) {
+				out = append(out, finding{"not-forwarded-to-capable-peer", "the receiving node cannot serve the request, a healthy capable peer exists in its registry, yet the request was not served through exactly one forward; " + chain()})
+			}
+		}
+	}
+	if !isW && ok2xx(o.Status) && o.ExecNode >= 0 && o.ExecNode < N && o.Proc[o.ExecNode] == 0 {
+		out = append(out, finding{"answer-from-unrecorded-node", fmt.Sprintf("the answer carries the marker of node-%d whose query log has no trace of it; %s", o.ExecNode, chain())})
+	}
+	return out
+}
+
+// ---------------------------------------------------------------------------------------------
+// enumeration
+
+type cfgItem struct {
+	nodes [maxNodes]nodeCfg
+	n     int8
+	space int8
+}
+
+type spaceDef struct {
+	Name      string
+	N         int
+	Recv      []nodeCfg
+	Peers     []nodeCfg
+	MaxStale  int // max number of nodes (receiver included) whose recorded role differs from the real one; -1 = no limit
+	Kinds     []int
+	Hdrs      []int
+	configs   int
+	cases     int64
+	nontriv   int64
+	Desc      string
+	peerLabel string
+	recvLabel string
+}
+
+func recWS(rec byte) []byte {
+	if rec == 'W' {
+		return []byte{'-', 'p', 's'}
+	}
+	return []byte{'-'}
+}
+
+// receiver sets
+func recvSet(full bool, healths []byte) []nodeCfg {
+	var out []nodeCfg
+	for _, real := range roleLetters {
+		for _, router := range []bool{true, false} {
+			if full {
+				for _, rec := range roleLetters {
+					for _, ws := range recWS(rec) {
+						for _, h := range healths {
+							out = append(out, nodeCfg{real, rec, ws, h, router})
+						}
+					}
+				}
+				continue
+			}
+			// lite: seen consistently, or seen as the node every confused peer would forward to
+			seen := map[string]bool{}
+			for _, rw := range [][2]byte{{real, '-'}, {'W', 'p'}, {'R', '-'}} {
+				k := string(rw[:])
+				if seen[k] {
+					continue
+				}
+				seen[k] = true
+				for _, h := range healths {
+					out = append(out, nodeCfg{real, rw[0], rw[1], h, router})
+				}
+			}
+		}
+	}
+	return out
+}
+
+func peerSet(healths []byte, consistentOnly bool) []nodeCfg {
+	var out []nodeCfg
+	for _, real := range roleLetters {
+		for _, rec := range roleLetters {
+			if consistentOnly && rec != real {
+				continue
+			}
+			for _, ws := range recWS(rec) {
+				for _, h := range healths {
+					out = append(out, nodeCfg{real, rec, ws, h, true})
+				}
+			}
+		}
+	}
+	sort.Slice(out, func(i, j int) bool { return out[i].key() < out[j].key() })
+	return out
+}
+
+// expand enumerates the configurations of a space: receiver x every MULTISET of N-1 peers (peers are interchangeable:
+// node ids carry no meaning for the router), filtered by the staleness bound.
+func (s *spaceDef) expand(si int, emit func(cfgItem)) {
+	np := s.N - 1
+	idx := make([]int, np)
+	for _, r := range s.Recv {
+		var rec func(pos, from int)
+		rec = func(pos, from int) {
+			if pos == np {
+				it := cfgItem{n: int8(s.N), space: int8(si)}
+				it.nodes[0] = r
+				stale := 0
+				if r.stale() {
+					stale++
+				}
+				for k := 0; k < np; k++ {
+					it.nodes[k+1] = s.Peers[idx[k]]
+					if it.nodes[k+1].stale() {
+						stale++
+					}
+				}
+				if s.MaxStale >= 0 && stale > s.MaxStale {
+					return
+				}
+				emit(it)
+				return
+			}
+			for i := from; i < len(s.Peers); i++ {
+				idx[pos] = i
+				rec(pos+1, i)
+			}
+		}
+		rec(0, 0)
+	}
+}
+
+func (s *spaceDef) hdrsFor() []int {
+	var h []int
+	for _, x := range s.Hdrs {
+		if x == hPeer && s.N < 2 {
+			continue
+		}
+		h = append(h, x)
+	}
+	return h
+}
+
+var (
+	allKinds     = []int{kMsgpack, kLP, kLPv1, kLPv2, kTLE, kQuery, kQueryShow, kQueryMsgpack, kQueryArrow, kQueryEstimate, kQueryMeasurement}
+	primaryKinds = []int{kMsgpack, kLP, kQuery, kQueryShow}
+	cheapKinds   = []int{kMsgpack, kLP, kQueryShow}
+	allHdrs      = []int{hAbsent, hJunk, hSelf, hPeer, hLower}
+	mainHdrs     = []int{hAbsent, hJunk, hPeer}
+)
+
+func spaces(quick bool) []*spaceDef {
+	h3 := []byte{'h', 'u', 'f'}
+	h4 := []byte{'h', 'u', 'f', 'x'}
+	h1 := []byte{'h'}
+	var sp []*spaceDef
+	add := func(s *spaceDef) { sp = append(sp, s) }
+	// one node: role x router presence (what the others record is unobservable)
+	var solo []nodeCfg
+	for _, real := range roleLetters {
+		for _, router := range []bool{true, false} {
+			solo = append(solo, nodeCfg{real, real, '-', 'h', router})
+		}
+	}
+	add(&spaceDef{Name: "N1", N: 1, Recv: solo, MaxStale: -1, Kinds: allKinds, Hdrs: allHdrs,
+		Desc: "1 node: 4 roles x router present/absent"})
+	if quick {
+		add(&spaceDef{Name: "N2-full", N: 2, Recv: recvSet(false, h1), Peers: peerSet(h4, false), MaxStale: -1, Kinds: allKinds, Hdrs: allHdrs,
+			Desc: "2 nodes: receiver {4 roles x router present/absent x seen by its peer as {itself, primary writer, reader}} x peer {4 real roles x recorded as any of 4 roles (writer: primary/standby/none) x healthy/unhealthy/failed/crashed-undetected}"})
+		add(&spaceDef{Name: "N3", N: 3, Recv: recvSet(false, h1), Peers: peerSet(h4, false), MaxStale: 1, Kinds: cheapKinds, Hdrs: mainHdrs,
+			Desc: "3 nodes: same receiver and peer alphabets, every multiset of 2 peers, at most one node with a stale recorded role"})
+		add(&spaceDef{Name: "N3-query", N: 3, Recv: recvSet(false, h1), Peers: peerSet(h3, false), MaxStale: 1, Kinds: []int{kQuery}, Hdrs: []int{hAbsent, hJunk},
+			Desc: "3 nodes, executed SELECT: peers healthy/unhealthy/failed, at most one stale node"})
+		add(&spaceDef{Name: "N4", N: 4, Recv: recvSet(false, h1), Peers: peerSet(h3, false), MaxStale: 1, Kinds: cheapKinds, Hdrs: []int{hAbsent, hJunk},
+			Desc: "4 nodes: every multiset of 3 peers (healthy/unhealthy/failed), at most one node with a stale recorded role"})
+	} else {
+		add(&spaceDef{Name: "N2-full", N: 2, Recv: recvSet(true, h3), Peers: peerSet(h4, false), MaxStale: -1, Kinds: allKinds, Hdrs: allHdrs,
+			Desc: "2 nodes: receiver {4 roles x router present/absent x recorded by its peer as any role/writer state x healthy/unhealthy/dead} x peer {4 real roles x recorded as any of 4 roles (writer: primary/standby/none) x healthy/unhealthy/failed/crashed-undetected}"})
+		add(&spaceDef{Name: "N3", N: 3, Recv: recvSet(false, h1), Peers: peerSet(h4, false), MaxStale: -1, Kinds: primaryKinds, Hdrs: allHdrs,
+			Desc: "3 nodes: receiver {4 roles x router x seen as itself/primary writer/reader} x every multiset of 2 peers from the full peer alphabet, any staleness"})
+		add(&spaceDef{Name: "N3-all-endpoints", N: 3, Recv: recvSet(false, h1), Peers: peerSet(h3, false), MaxStale: 1, Kinds: allKinds, Hdrs: mainHdrs,
+			Desc: "3 nodes, every endpoint: peers healthy/unhealthy/failed, at most one stale node"})
+		add(&spaceDef{Name: "N4", N: 4, Recv: recvSet(false, h1), Peers: peerSet(h4, false), MaxStale: 2, Kinds: cheapKinds, Hdrs: mainHdrs,
+			Desc: "4 nodes: every multiset of 3 peers from the full peer alphabet, at most two nodes with a stale recorded role"})
+		add(&spaceDef{Name: "N4-query", N: 4, Recv: recvSet(false, h1), Peers: peerSet(h3, false), MaxStale: 1, Kinds: []int{kQuery}, Hdrs: []int{hAbsent, hJunk},
+			Desc: "4 nodes, executed SELECT: peers healthy/unhealthy/failed, at most one stale node"})
+	}
+	return sp
+}
+
+// nontrivial: the routing layer has something to decide — the receiving node cannot serve the request itself,
+// or the client sent a forwarding header, or somebody's recorded role is stale.
+func nontrivial(c caseCfg) bool {
+	if !capable(c, 0) || c.Hdr != hAbsent {
+		return true
+	}
+	for _, n := range c.Nodes {
+		if n.stale() {
+			return true
+		}
+	}
+	return false
+}
+
+// ---------------------------------------------------------------------------------------------
+// violation classes: minimisation and attribution
+
+type classes struct {
+	mu      sync.Mutex
+	minimal map[string][]caseCfg // oracle kind -> minimal cases found so far
+	sig     map[string]string    // oracle kind + minimal case key -> signature
+	count   map[string]int
+	desc    map[string]string
+	replay  map[string]any
+	minRuns int64
+	flaky   int
+}
+
+func attrReduces(c, m nodeCfg) bool {
+	return m.Real == c.Real && (m.Rec == c.Rec || m.Rec == m.Real) && (m.WS == c.WS || m.WS == '-') &&
+		(m.Health == c.Health || m.Health == 'h') && (m.Router == c.Router || m.Router)
+}
+
+// reducesTo: can the raw case c be turned into the minimal case m by the minimiser's own steps
+// (drop a peer, header -> junk -> absent, attribute -> default)?
+func reducesTo(c, m caseCfg) bool {
+	if c.Kind != m.Kind || len(m.Nodes) > len(c.Nodes) {
+		return false
+	}
+	if !(m.Hdr == c.Hdr || m.Hdr == hAbsent || (m.Hdr == hJunk && c.Hdr != hAbsent)) {
+		return false
+	}
+	if !attrReduces(c.Nodes[0], m.Nodes[0]) {
+		return false
+	}
+	mp, cp := m.Nodes[1:], c.Nodes[1:]
+	used := make([]bool, len(cp))
+	var match func(i int) bool
+	match = func(i int) bool {
+		if i == len(mp) {
+			return true
+		}
+		for j := range cp {
+			if !used[j] && attrReduces(cp[j], mp[i]) {
+				used[j] = true
+				if match(i + 1) {
+					return true
+				}
+				used[j] = false
+			}
+		}
+		return false
+	}
+	return match(0)
+}
+
+func hasKind(fs []finding, k string) (finding, bool) {
+	for _, f := range fs {
+		if f.Kind == k {
+			return f, true
+		}
+	}
+	return finding{}, false
+}
+
+// failsAll: the case shows oracle kind k in every one of n executions.
+func (ch *chassis) failsAll(c caseCfg, k string, n int, cl *classes) (finding, bool) {
+	var last finding
+	for i := 0; i < n; i++ {
+		atomic.AddInt64(&cl.minRuns, 1)
+		o, ok := ch.runRetry(c)
+		if !ok {
+			return last, false
+		}
+		f, bad := hasKind(judge(c, o), k)
+		if !bad {
+			return last, false
+		}
+		last = f
+	}
+	return last, true
+}
+
+func (ch *chassis) minimise(c caseCfg, k string, cl *classes) (caseCfg, finding, bool) {
+	cur := c.canon()
+	f, ok := ch.failsAll(cur, k, 2, cl)
+	if !ok {
+		return cur, f, false
+	}
+	try := func(cand caseCfg) bool {
+		if g, ok := ch.failsAll(cand, k, 2, cl); ok {
+			cur, f = cand.canon(), g
+			return true
+		}
+		return false
+	}
+	for changed := true; changed; {
+		changed = false
+		if cur.Hdr != hAbsent {
+			cand := cur.clone()
+			cand.Hdr = hAbsent
+			if try(cand) {
+				changed = true
+			} else if cur.Hdr != hJunk {
+				cand.Hdr = hJunk
+				if try(cand) {
+					changed = true
+				}
+			}
+		}
+		for i := len(cur.Nodes) - 1; i >= 1; i-- {
+			if cur.Hdr == hPeer && len(cur.Nodes) == 2 {
+				break
+			}
+			cand := cur.clone()
+			cand.Nodes = append(cand.Nodes[:i], cand.Nodes[i+1:]...)
+			if try(cand) {
+				changed = true
+			}
+		}
+		for i := 0; i < len(cur.Nodes); i++ {
+			n := cur.Nodes[i]
+			var alts []nodeCfg
+			if !n.Router {
+				a := n
+				a.Router = true
+				alts = append(alts, a)
+			}
+			if n.Health != 'h' {
+				a := n
+				a.Health = 'h'
+				alts = append(alts, a)
+			}
+			if n.stale() {
+				a := n
+				a.Rec, a.WS = a.Real, '-'
+				alts = append(alts, a)
+			}
+			if n.WS != '-' {
+				a := n
+				a.WS = '-'
+				alts = append(alts, a)
+			}
+			for _, a := range alts {
+				if i >= len(cur.Nodes) {
+					break
+				}
+				cand := cur.clone()
+				cand.Nodes[i] = a
+				if try(cand) {
+					changed = true
+					break
+				}
+			}
+		}
+	}
+	if g, ok := ch.failsAll(cur, k, 5, cl); ok {
+		return cur, g, true
+	}
+	return cur, f, false
+}
+
+func (cl *classes) report(ch *chassis, c caseCfg, f finding) {
+	cl.mu.Lock()
+	for _, m := range cl.minimal[f.Kind] {
+		if reducesTo(c.canon(), m) {
+			cl.count[cl.sig[f.Kind+"#"+m.key()]]++
+			cl.mu.Unlock()
+			return
+		}
+	}
+	cl.mu.Unlock()
+	m, g, stable := ch.minimise(c, f.Kind, cl)
+	sig := f.Kind + "|" + m.String()
+	if !stable {
+		sig += "|not-reproducible-5x"
+		g = f
+	}
+	cl.mu.Lock()
+	defer cl.mu.Unlock()
+	if !stable {
+		cl.flaky++
+	}
+	if _, seen := cl.desc[sig]; !seen {
+		cl.desc[sig] = g.Desc
+		cl.replay[sig] = map[string]any{"minimal_case": m.String(), "nodes": describe(m), "first_raw_case": c.String(), "oracle": f.Kind}
+		if stable {
+			cl.minimal[f.Kind] = append(cl.minimal[f.Kind], m)
+			cl.sig[f.Kind+"#"+m.key()] = sig
+		}
+	}
+	cl.count[sig]++
+}
+
+func describe(c caseCfg) []map[string]any {
+	var out []map[string]any
+	for i, n := range c.Nodes {
+		who := "peer"
+		if i == 0 {
+			who = "receiving node"
+		}
+		out = append(out, map[string]any{"node": nodeID(i), "is": who, "real_role": roleName[n.Real], "role_recorded_by_others": roleName[n.Rec],
+			"writer_state_recorded": string(n.WS), "health": string(n.Health), "router_wired": n.Router})
+	}
+	return out
+}
+
+// runRetry re-executes a case whose CLIENT connection broke (never judged: see the note on the Arrow trailer race).
+func (ch *chassis) runRetry(c caseCfg) (obs, bool) {
+	for i := 0; i < 6; i++ {
+		o := ch.run(c)
+		if o.Err == "" {
+			return o, true
+		}
+		ch.transportErrs++
+		ch.lastTransportErr = o.Err
+		ch.tr.CloseIdleConnections()
+	}
+	return obs{}, false
+}
+
+// ---------------------------------------------------------------------------------------------
+
+func cpuSeconds() float64 {
+	var ru syscall.Rusage
+	syscall.Getrusage(syscall.RUSAGE_SELF, &ru)
+	return float64(ru.Utime.Sec+ru.Stime.Sec) + float64(ru.Utime.Usec+ru.Stime.Usec)/1e6
+}
+
+func main() {
+	run := ev.Start("C30", "exploration")
+	root := fmt.Sprintf("/dev/shm/verif.c30.%d", os.Getpid())
+	os.RemoveAll(root)
+	cleanup := func() { os.RemoveAll(root) }
+	defer cleanup()
+
+	sp := spaces(run.Quick())
+	var items []cfgItem
+	for si, s := range sp {
+		s.expand(si, func(it cfgItem) {
+			items = append(items, it)
+			s.configs++
+		})
+		s.cases = int64(s.configs) * int64(len(s.Kinds)) * int64(len(s.hdrsFor()))
+	}
+	var totalCases int64
+	for _, s := range sp {
+		totalCases += s.cases
+		fmt.Printf("space %-18s N=%d configs=%d kinds=%d hdrs=%d cases=%d\n", s.Name, s.N, s.configs, len(s.Kinds), len(s.hdrsFor()), s.cases)
+	}
+	fmt.Printf("total configurations=%d cases=%d\n", len(items), totalCases)
+	if os.Getenv("VERIF_C30_DRY") != "" {
+		return
+	}
+	if run.Seed != 0 {
+		rand.New(rand.NewSource(int64(run.Seed))).Shuffle(len(items), func(i, j int) { items[i], items[j] = items[j], items[i] })
+	}
+
+	nw := runtime.NumCPU()
+	if nw > 16 {
+		nw = 16
+	}
+	if s := os.Getenv("VERIF_C30_WORKERS"); s != "" {
+		nw, _ = strconv.Atoi(s)
+	}
+	t0 := time.Now()
+	chs := make([]*chassis, nw)
+	var wg sync.WaitGroup
+	var setupErr atomic.Value
+	for w := 0; w < nw; w++ {
+		wg.Add(1)
+		go func(w int) {
+			defer wg.Done()
+			ch, err := newChassis(w, filepath.Join(root, fmt.Sprintf("w%d", w)))
+			if err != nil {
+				setupErr.Store(err.Error())
+				return
+			}
+			chs[w] = ch
+		}(w)
+	}
+	wg.Wait()
+	if e := setupErr.Load(); e != nil {
+		cleanup()
+		ev.Unbound("cannot bring the in-process cluster up: " + e.(string))
+	}
+	fmt.Printf("%d in-process clusters of %d nodes up in %.1fs\n", nw, maxNodes, time.Since(t0).Seconds())
+
+	if os.Getenv("VERIF_C30_BENCH") != "" {
+		bench(chs[0])
+		cleanup()
+		return
+	}
+
+	cl := &classes{minimal: map[string][]caseCfg{}, sig: map[string]string{}, count: map[string]int{}, desc: map[string]string{}, replay: map[string]any{}}
+	samples := ev.NewSamples(8)
+	var next, evals, nontriv, indeterminate, forwarded, rejected508 atomic.Int64
+	var timeUp atomic.Bool
+	outcomes := make([]map[string]int64, nw)
+	perSpaceEval := make([][]int64, nw)
+	perSpaceNT := make([][]int64, nw)
+	const chunk = 16
+	for w := 0; w < nw; w++ {
+		wg.Add(1)
+		outcomes[w] = map[string]int64{}
+		perSpaceEval[w] = make([]int64, len(sp))
+		perSpaceNT[w] = make([]int64, len(sp))
+		go func(w int) {
+			defer wg.Done()
+			ch := chs[w]
+			for {
+				lo := int(next.Add(chunk)) - chunk
+				if lo >= len(items) {
+					return
+				}
+				hi := lo + chunk
+				if hi > len(items) {
+					hi = len(items)
+				}
+				for _, it := range items[lo:hi] {
+					if run.TimeUp() {
+						timeUp.Store(true)
+						return
+					}
+					s := sp[it.space]
+					for _, k := range s.Kinds {
+						for _, h := range s.hdrsFor() {
+							c := caseCfg{Nodes: append([]nodeCfg{}, it.nodes[:it.n]...), Kind: k, Hdr: h}
+							o, ok := ch.runRetry(c)
+							if !ok {
+								indeterminate.Add(1)
+								continue
+							}
+							evals.Add(1)
+							perSpaceEval[w][it.space]++
+							if nontrivial(c) {
+								nontriv.Add(1)
+								perSpaceNT[w][it.space]++
+							}
+							if o.Forwards > 0 {
+								forwarded.Add(1)
+							}
+							if o.Status == 508 {
+								rejected508.Add(1)
+							}
+							by := "nobody"
+							for i, p := range o.Proc {
+								if p > 0 {
+									if i == 0 {
+										by = "receiver"
+									} else {
+										by = "peer"
+									}
+								}
+							}
+							wq := "query"
+							if kinds[k].IsWrite {
+								wq = "write"
+							}
+							outcomes[w][fmt.Sprintf("%s status=%d forwards=%d served-by=%s", wq, o.Status, o.Forwards, by)]++
+							fs := judge(c, o)
+							for _, f := range fs {
+								cl.report(ch, c, f)
+							}
+							if len(fs) == 0 && o.Forwards == 1 && c.Hdr != hAbsent {
+								samples.Add(map[string]any{"case": c.String(), "status": o.Status, "forwards": o.Forwards, "processed_per_node": o.Proc})
+							}
+						}
+					}
+					if ch.sinceFlush >= 20000 {
+						ch.reconcile()
+					}
+				}
+			}
+		}(w)
+	}
+	wg.Wait()
+	var storeRows, tErrs int64
+	var storeBad []string
+	lastTE := ""
+	for _, ch := range chs {
+		ch.reconcile()
+		storeRows += ch.storeRows
+		storeBad = append(storeBad, ch.storeBad...)
+		tErrs += ch.transportErrs
+		if ch.lastTransportErr != "" {
+			lastTE = ch.lastTransportErr
+		}
+	}
+	for _, ch := range chs {
+		ch.close()
+	}
+	cleanup()
+	if len(storeBad) > 0 {
+		sort.Strings(storeBad)
+		ev.Unbound(fmt.Sprintf("observation inconsistent: %d store/WAL mismatches, e.g. %s", len(storeBad), storeBad[0]))
+	}
+
+	merged := map[string]int64{}
+	for _, m := range outcomes {
+		for k, v := range m {
+			merged[k] += v
+		}
+	}
+	var spaceRows []map[string]any
+	for si, s := range sp {
+		var e, nt int64
+		for w := 0; w < nw; w++ {
+			e += perSpaceEval[w][si]
+			nt += perSpaceNT[w][si]
+		}
+		var kn []string
+		for _, k := range s.Kinds {
+			kn = append(kn, kinds[k].Name)
+		}
+		var hn []string
+		for _, h := range s.hdrsFor() {
+			hn = append(hn, hdrName[h])
+		}
+		spaceRows = append(spaceRows, map[string]any{"space": s.Name, "nodes": s.N, "what": s.Desc, "configurations": s.configs, "request_kinds": kn,
+			"client_headers": hn, "cases": s.cases, "evaluated": e, "nontrivial": nt, "max_stale_nodes": s.MaxStale})
+	}
+	exhaustive := !timeUp.Load() && evals.Load()+indeterminate.Load() == totalCases && indeterminate.Load() == 0
+	run.Coverage["evaluations"] = evals.Load()
+	run.Coverage["distinct_nontrivial"] = nontriv.Load()
+	run.Coverage["rule"] = "cases = every configuration of each listed space (receiving node x every multiset of peers x staleness bound) x request kind x client X-Arc-Forwarded-By value, each executed once on real fiber apps/handlers/routers wired over in-memory HTTP; all cases are distinct by construction (canonical key = kind, header, receiver attributes, sorted peer attributes); non-trivial = the receiving node cannot serve the request itself, or the client sent a forwarding header, or some node's recorded role is stale"
+	run.Coverage["spaces"] = spaceRows
+	run.Coverage["exhaustive"] = exhaustive
+	run.Coverage["indeterminate_client_transport_errors"] = indeterminate.Load()
+	run.Coverage["client_transport_errors_retried"] = tErrs
+	if lastTE != "" {
+		run.Coverage["client_transport_error_example"] = lastTE
+	}
+	run.Coverage["cases_forwarded"] = forwarded.Load()
+	run.Coverage["cases_rejected_508"] = rejected508.Load()
+	run.Coverage["distinct_outcomes"] = len(merged)
+	run.Coverage["outcomes"] = merged
+	run.Coverage["store_rows_reconciled"] = storeRows
+	run.Coverage["reference_validated"] = fmt.Sprintf("%d accepted writes found, after flush, in the Parquet store of exactly the node whose WAL hook saw them", storeRows)
+	run.Coverage["minimisation_executions"] = atomic.LoadInt64(&cl.minRuns)
+	run.Coverage["workers"] = nw
+	sl := samples.List()
+	if len(sl) == 0 {
+		sl = append(sl, map[string]any{"case": "none with a client header that was forwarded"})
+	}
+	run.Coverage["samples"] = sl
+	run.Assume("capability table used by the oracle (standalone/writer: ingest+query; reader: query only; compactor: neither) is the documented contract of internal/cluster/role.go, written out in the harness")
+	run.Assume("a node without a cluster router is a non-clustered server (main.go wires a router whenever a coordinator exists), so it may serve everything locally")
+	run.Assume("every node's registry holds its own LocalNode plus the same recorded entry for each other node (a shared, possibly stale, membership view); per-viewer divergent views are not enumerated")
+	run.Assume("peers are interchangeable (node ids are opaque to Router/Registry), so multisets of peers are enumerated instead of tuples; which of several equally eligible peers the router picks depends on Go map order and is not controlled — the safety clauses are demanded of whatever it picks, the 'must be forwarded' clause only when every eligible pick is good")
+	run.Assume("a client header on a request that the receiving node cannot serve may be answered by an error (508) instead of a forward: the property demands no local processing and no second hop there, not success")
+	run.Assume("transport faults after delivery (forward retried by Router.forwardRequest after a lost response) are outside the configuration space; unreachable peers refuse the connection")
+	run.Assume("import, delete, continuous-query and management endpoints are not request kinds of this property; auth/RBAC disabled")
+	run.Assume("inter-node HTTP runs over fasthttputil in-memory listeners through the production http.Transport type injected via RouterConfig.Transport (DialContext only); no TLS")
+	if !exhaustive {
+		run.Assume(fmt.Sprintf("NOT exhaustive: %d of %d cases evaluated (time cap or %d indeterminate)", evals.Load(), totalCases, indeterminate.Load()))
+	}
+	sigs := make([]string, 0, len(cl.desc))
+	for s := range cl.desc {
+		sigs = append(sigs, s)
+	}
+	sort.Strings(sigs)
+	for _, s := range sigs {
+		for i := 0; i < cl.count[s]; i++ {
+			run.Violate(s, cl.desc[s], cl.replay[s])
+		}
+	}
+	fmt.Printf("C30 evaluated=%d nontrivial=%d forwarded=%d rejected508=%d outcomes=%d classes=%d exhaustive=%v cpu=%.0fs wall=%.1fs\n",
+		evals.Load(), nontriv.Load(), forwarded.Load(), rejected508.Load(), len(merged), len(sigs), exhaustive, cpuSeconds(), time.Since(t0).Seconds())
+	run.Finish()
+}
+
+func bench(ch *chassis) {
+	W := nodeCfg{'W', 'W', '-', 'h', true}
+	R := nodeCfg{'R', 'R', '-', 'h', true}
+	C := nodeCfg{'C', 'C', '-', 'h', true}
+	for k := 0; k < nKinds; k++ {
+		for _, cc := range []caseCfg{{[]nodeCfg{W, R, C}, k, hAbsent}, {[]nodeCfg{C, W, R}, k, hAbsent}, {[]nodeCfg{C, C, C}, k, hAbsent}} {
+			n := 500
+			c0, t := cpuSeconds(), time.Now()
+			st := 0
+			for i := 0; i < n; i++ {
+				o, _ := ch.runRetry(cc)
+				st = o.Status
+			}
+			fmt.Printf("%-70s st=%d cpu/case=%.0fus wall/case=%.0fus\n", cc, st, (cpuSeconds()-c0)/float64(n)*1e6, float64(time.Since(t).Microseconds())/float64(n))
+		}
+	}
+}
